@@ -245,6 +245,30 @@ def run(ctx, rep):
     news = [n for n in gl.live if n.kind == "stmt" and n.ast is not None and any(
         isinstance(c.func, ast.Attribute) and c.func.attr == "__new__" for c in A.calls(n.ast))]
     rep.floor("R07.5", "instantiation sites (cls.__new__) in vinegar.load", len(news), 1)
+    # what is instantiated is always the derived wrapper class: the dispatcher decides whether to re-raise locally by class
+    # IDENTITY (`t is KeyboardInterrupt`), which is safe only because a forged built-in never arrives as the exact class
+    rdl = Q.ReachingDefs(gl)
+    inst_sites = [n for n in gl.live if n.kind == "stmt" and n.ast is not None and any(
+        (isinstance(c.func, ast.Attribute) and c.func.attr == "__new__") or A.call_name(c) == "InstanceType" for c in A.calls(n.ast))]
+    unwrapped = []
+    for n in inst_sites:
+        for c in A.calls(n.ast):
+            if (isinstance(c.func, ast.Attribute) and c.func.attr == "__new__") or A.call_name(c) == "InstanceType":
+                ops_ = [a_ for a_ in ([c.func.value] if isinstance(c.func, ast.Attribute) else []) + list(c.args) if isinstance(a_, ast.Name)]
+                for a_ in ops_:
+                    for d_ in rdl.at(n, a_.id):
+                        okd_ = d_ != "param" and d_.kind == "stmt" and isinstance(d_.ast, ast.Assign) and \
+                            isinstance(d_.ast.value, ast.Call) and (A.call_name(d_.ast.value) or "").endswith("_get_exception_class")
+                        if not okd_:
+                            unwrapped.append((n, a_.id, d_))
+    rep.ob("R07.5", "vinegar.load: the instantiated class is on every path the derived wrapper from _get_exception_class", not unwrapped,
+           "%d instantiation site(s), each class operand defined by _get_exception_class(...) only" % len(inst_sites) if not unwrapped else
+           "at %s the class `%s` can still be the looked-up class itself (defined at %s): a record naming KeyboardInterrupt / "
+           "SystemExit with such a payload yields an instance whose type IS the built-in, which the dispatcher's identity test "
+           "re-raises locally - a peer can interrupt or terminate this process" % (
+               ctx.loc(unwrapped[0][0].ast), unwrapped[0][1],
+               "the parameter" if unwrapped[0][2] == "param" else ctx.loc(unwrapped[0][2].ast)),
+           ctx.loc(unwrapped[0][0].ast) if unwrapped else fl.loc)
     # taint: the object found under a peer-chosen name reaches a real use only through BOTH vetting tests
     lookups = [n for n in gl.live if n.kind == "stmt" and isinstance(n.ast, ast.Assign) and
                isinstance(n.ast.targets[0], ast.Name) and n.ast.targets[0].id in clsvars and
